@@ -169,5 +169,26 @@ C.append({"name":"alias-intmant-renamed-and-reached-for-zero","kind":"positive",
  {"file":"decimal.go","old":"		z = new(big.Int)\n	}\n\n	switch x.form {\n	case finite:\n","new":"		z = new(big.Int)\n	}\n\n	switch x.form {\n	case finite, zero:\n"},
  {"file":"decimal.go","old":"		return z, acc\n\n	case zero:\n		return z.SetInt64(0), Exact\n\n	case inf:\n		return nil, makeAcc(x.neg)","new":"		return z, acc\n\n	case inf:\n		return nil, makeAcc(x.neg)"}],
  "expect":[{"rule":"STALE","construct":"(*Decimal).intMant"}],"note":"intMant renamed everywhere and Int made to reach it for a zero: reported under the pinned construct name (fingerprint aliasing)"})
+pos("revert-F21-setfloat-negative-zero","decimal.go","	if x.Sign() == 0 {\n		// ±0: SetInt below would drop the sign of a negative zero\n		z.form = zero\n		return z\n	}\n","","T-CONV","SetFloat(-0)",quick=True,note="F21")
+pos("revert-F22-pow2-workprec-wraps-on-32-bit","decimal_conv.go","	f := new(Decimal).SetPrec(z.workPrec()).SetUint64(2)\n","	f := new(Decimal).SetPrec(z.Prec() + _DW).SetUint64(2)\n","PRECWRAP","(*Decimal).pow2",note="F22: manifests where uint has 32 bits",config="386")
+SHL_OLD="		h, l = d.div(x[i-1])\n		z[i] = t*m + h"
+SHL_NEW="		if w := x[i-1]; w %s Word(d.d) {\n			h, l = 0, w\n		} else {\n			h, l = d.div(w)\n		}\n		z[i] = t*m + h"
+pos("divcore-shl-skips-division-up-to-divisor","dec_arith.go",SHL_OLD,SHL_NEW%"<=","DIVCORE","shl10VU_g",quick=True,note="seed r8-C20C: the word equal to the divisor has quotient 1",config="purego")
+neg("neg-divcore-shl-skips-division-below-divisor","dec_arith.go",SHL_OLD,SHL_NEW%"<",["DIVCORE","WORDSUM","FILL","SHIFTW"],note="the correct form of the shortcut: strictly below the divisor the pair is (0, word)")
+pos("gob-decode-into-receiver-before-validation","decimal_marsh.go","		m := dec(nil).setBytes(buf[10:])\n","		m := z.mant.setBytes(buf[10:])\n","GOB","G9",quick=True,note="seed r8-C08B: unvalidated words land in the receiver's mantissa array, then an error is returned")
+pos("gob-attributes-stored-before-validation","decimal_marsh.go","	if frm == finite {\n		if len(buf) < 10 {","	z.mode = mode\n	z.prec = prec\n	if frm == finite {\n		if len(buf) < 10 {","GOB","G9",note="seed r8-C09C")
+pos("aliasskip-sub-copy-skipped-for-wrong-operand","dec.go","	if m > n {\n		c = sub10VW(z[n:], x[n:], c)\n	}","	if m > n {\n		if c != 0 {\n			c = sub10VW(z[n:], x[n:], c)\n		} else if !alias(z, y) {\n			copy(z[n:], x[n:])\n		}\n	}","ALIASGUARD","dec.sub/alias-skip",quick=True,note="seed r8-C03A")
+neg("neg-aliasskip-sub-copy-skipped-when-same","dec.go","	if m > n {\n		c = sub10VW(z[n:], x[n:], c)\n	}","	if m > n {\n		if c != 0 {\n			c = sub10VW(z[n:], x[n:], c)\n		} else if !same(z, x) {\n			copy(z[n:], x[n:])\n		}\n	}",["ALIASGUARD","FILL","CARRY","OVERLAP"],note="the copy skipped only when z is x itself: must not alarm")
+pos("fill-dectonat-stops-when-source-exhausted","dec.go","	for i := 0; i < len(z); i++ {\n		// r = zz & _B; zz = zz >> _W\n","	for i := 0; i < len(z); i++ {\n		if len(zz) == 0 {\n			break\n		}\n		// r = zz & _B; zz = zz >> _W\n","FILL","decToNat",note="seed r8-C10A: the words of the reused []big.Word that are not reached keep their old contents")
+GT_OLD="	return x1 > y1 || x1 == y1 && x2 > y2\n"
+pos("qhat-greaterthan-not-strict","stdlib.go",GT_OLD,"	return x1 > y1 || x1 == y1 && x2 >= y2\n","QHAT","test-strict",quick=True,note="seed r9-C15C: on equality the estimate is exact")
+neg("neg-qhat-greaterthan-branch-free","stdlib.go",GT_OLD,"	_, b := bits.Sub(uint(y2), uint(x2), 0)\n	_, b = bits.Sub(uint(y1), uint(x1), b)\n	return b != 0\n",["QHAT"],note="the strict comparison written with borrows (y - x borrows exactly when x > y): must not alarm; needs math/bits imported — stdlib.go does not import it, so the edit below adds it")
+C[-1]["edits"].append({"file":"stdlib.go","old":"	\"math/big\"\n","new":"	\"math/big\"\n	\"math/bits\"\n"})
+pos("word-product-touint64","dec.go","			lo = x[1]\n			fallthrough\n		case 1:\n			hi, lo = mulAddWWW_g(lo, _DB, x[0])","			lo = x[1] * _DB\n			fallthrough\n		case 1:\n			hi, lo = mulAddWWW_g(0, 0, lo+x[0])","WORD","word-product",note="seed r9-C14B (the carry handling of the seed left out: the product alone wraps)")
+pos("gob-partial-word-through-whole-word-reader","dec.go","		var d Word\n		for s := uint(0); i > 0; s += 8 {\n			d |= Word(buf[i-1]) << s\n			i--\n		}\n		z[len(z)-1] = d\n","		z[len(z)-1] = bigEndianWord(buf[:i])\n","GOB","G10",quick=True,note="seed r9-C17C")
+pos("sqrt-scratch-rounds-to-zero","decimal_sqrt.go","	z.mant = z.mant.make(int(prec2/_DW) * 2)\n	return z","	z.mant = z.mant.make(int(prec2/_DW) * 2)\n	z.mode = ToZero\n	return z","SQRTSHAPE","scratch-mode",quick=True,note="seed r9-C05B")
+pos("workprec-whole-words-only","decimal_conv.go","	return uint(p)\n}","	return uint(p / _DW * _DW)\n}","WORKPREC","guard-word",note="seed r9-C15B")
+pos("writemultiple-block-remainder","stdlib.go","		b := []byte(text)\n		for ; count > 0; count-- {\n			s.Write(b)\n		}\n","		if len(text) > 1 {\n			return\n		}\n		var block [32]byte\n		for i := range block {\n			block[i] = text[0]\n		}\n		for ; count > len(block); count -= len(block) {\n			s.Write(block[:])\n		}\n		s.Write(block[:count%len(block)])\n","FMTSHAPE","writeMultiple/count",quick=True,note="seeds r5-C13C, r7-C13C: a full last block is written as nothing")
+neg("neg-writemultiple-block-remainder","stdlib.go","		b := []byte(text)\n		for ; count > 0; count-- {\n			s.Write(b)\n		}\n","		if len(text) > 1 {\n			b := []byte(text)\n			for ; count > 0; count-- {\n				s.Write(b)\n			}\n			return\n		}\n		var block [32]byte\n		for i := range block {\n			block[i] = text[0]\n		}\n		for ; count > len(block); count -= len(block) {\n			s.Write(block[:])\n		}\n		s.Write(block[:count])\n",["FMTSHAPE","FX-IMMUT"],note="the correct batching (remainder = what is left, at most a block): must not alarm")
 json.dump(C,open("seedrules.json","w"),indent=1,ensure_ascii=False)
 print(len(C),"controls")
